@@ -73,6 +73,24 @@ theorem asks_to_dead_are_lost (n n' : Net) (y : Nat) (hs : step? n (.die y) = so
       have : t ≠ t0 := by intro he; subst he; exact hnb hb
       simp only [flags.2, if_true, loseTo, clear_asks, setN, this, if_false, hc, hst, and_self]
 
+/-- `late_reply_keeps_newer_edge`: a reply that arrives after its asker has given up (timeout, cancellation) still
+    calls `clear_wait_for` with the old ask's token; in every reachable state that call changes nothing - in
+    particular an edge the same asker has registered since, for its next ask, stays in the map (so a cycle through
+    it is still seen: `graph_covers` holds after the step as before it). -/
+theorem late_reply_keeps_newer_edge (ls : List NLabel) (n n' : Net) (hr : run? init ls = some n) (t : Nat)
+    (hst : (n.asks t).st = .abandoned) (hs : step? n (.reply t) = some n') :
+    n'.graph = n.graph ∧ n'.tokOf = n.tokOf ∧ n'.asks = n.asks ∧ n'.busy = n.busy := by
+  simp only [step?, stepWith, hst] at hs
+  cases hs
+  simp only [flags.1, if_true]
+  rw [clear_stale (NInv_run ls n hr) hst]
+  exact ⟨rfl, rfl, rfl, rfl⟩
+
+-- non-vacuity: actor 1 asks 2, gives up, asks 3; the late reply of 2 arrives; 3 asking 1 is still reported
+example : ∃ n, run? init [.ask 1 2, .giveUp 1, .ask 1 3, .reply 1, .ask 3 1] = some n ∧
+    NEv.deadlock 3 1 [3, 1, 3] ∈ n.ev := by
+  refine ⟨_, rfl, ?_⟩; decide
+
 /-- the cycle path in the panic message starts with the asking actor -/
 theorem path_starts_with_caller (g : Graph) (a b : Nat) : (format_cycle_path g a b).head? = some a := by
   have hloop : ∀ fuel path cur ms, path.head? = some a →
